@@ -70,6 +70,12 @@ def gen_spec(rng, kind=None):
                 flavour=rng.choice(["plain", "ties", "trend"]), mode=rng.choice(["min", "max"]),
                 use_max_resource_attr=rng.random() < 0.5, remove_callback=False, speculative=None, plan=None,
                 fail_den=rng.choice([None, None, 6, 12, 25]))
+    # wait_trial_completion_when_stopping and a stop criterion that holds during a window of polls and then
+    # does not hold any more (a user lambda / PlateauStopper can behave like this): no scheduling in the window
+    if rng.random() < 0.35:
+        a = rng.randint(1, max(1, spec["polls"] - 3))
+        spec["wait_completion"] = True
+        spec["stop_window"] = [a, a + rng.randint(1, 4)]
     if kind in HB_KINDS:
         # PASHA supports a single bracket only (hyperband_pasha.py raises IndexError with 2: outside this property)
         spec.update(max_t=rng.choice([9, 9, 27, 8]), rf=rng.choice([2, 3]),
@@ -98,6 +104,8 @@ def gen_spec(rng, kind=None):
                         polls=2 * f + rng.randint(20, 60), max_steps=rng.choice([2, 3]), fail_den=None,
                         nan_den=rng.choice([None, None, 5]))
             spec["max_t"] = spec["custom_rungs"][-1][1]
+        if kind == "dehb" and not spec.get("straggler_factor") and rng.random() < 0.3:
+            spec["support_pause_resume"] = False
         if kind == "sync":
             # the Tuner installs RemoveCheckpointsCallback itself iff delete_checkpoints; a user may also add it
             spec["remove_callback"] = spec["delete_checkpoints"] or rng.random() < 0.3
@@ -148,9 +156,12 @@ def build_scheduler(spec, be=None):
             from syne_tune.optimizer.schedulers.synchronous.dehb import DifferentialEvolutionHyperbandScheduler
             return DifferentialEvolutionHyperbandScheduler(
                 cs, rungs_first_bracket=[tuple(x) for x in spec["custom_rungs"]],
-                num_brackets_per_iteration=spec.get("brackets"), **common)
+                num_brackets_per_iteration=spec.get("brackets"),
+                support_pause_resume=spec.get("support_pause_resume", True), **common)
         return GeometricDifferentialEvolutionHyperbandScheduler(cs, grace_period=1, reduction_factor=spec["rf"],
-                                                                brackets=spec.get("brackets"), **common)
+                                                                brackets=spec.get("brackets"),
+                                                                support_pause_resume=spec.get("support_pause_resume", True),
+                                                                **common)
     from syne_tune.optimizer.schedulers.pbt import PopulationBasedTraining
     return PopulationBasedTraining(cs, custom_explore_fn=Explorer(be) if be is not None else None,
                                    max_t=spec["max_t"], population_size=spec["population_size"],
@@ -168,6 +179,20 @@ class _FakeTime:
         return float(self.be.polls)
 
 
+class WindowStop:
+    """scripted stop criterion: holds inside spec["stop_window"] = [a, b) (polls) and from spec["polls"] on;
+    every evaluation is written to the log"""
+
+    def __init__(self, be, spec):
+        self.be, self.spec = be, spec
+
+    def __call__(self, status):
+        w = self.spec.get("stop_window")
+        v = self.be.polls >= self.spec["polls"] or bool(w and w[0] <= self.be.polls < w[1])
+        self.be.log.append(("stopcond", v))
+        return v
+
+
 def run_case(spec):
     """Runs the real Tuner; returns (log, extra) — extra: crash text, world plan, rung table."""
     from syne_tune import Tuner
@@ -178,7 +203,8 @@ def run_case(spec):
     cbs = [Recorder(be)]
     if spec["kind"] == "sync" and spec["remove_callback"] and not spec["delete_checkpoints"]:
         cbs.append(RemoveCheckpointsCallback())
-    tuner = Tuner(trial_backend=be, scheduler=sch, stop_criterion=lambda st: be.polls >= spec["polls"],
+    tuner = Tuner(trial_backend=be, scheduler=sch, stop_criterion=WindowStop(be, spec),
+                  wait_trial_completion_when_stopping=bool(spec.get("wait_completion")),
                   n_workers=spec["n_workers"], sleep_time=0, callbacks=cbs, save_tuner=False,
                   tuner_name="c20", suffix_tuner_name=False, results_update_interval=1e9, print_update_interval=1e9,
                   max_failures=10 ** 6)
@@ -338,8 +364,12 @@ def split_iterations(log):
     its, cur, phase = [], None, None
     tail = []
     done = False
+    last_stop = False
     for e in log:
         tag = e[0]
+        if tag == "stopcond":
+            last_stop = e[1]
+            continue
         if tag == "tuning_end":
             done = True
             if cur is not None:
@@ -350,7 +380,7 @@ def split_iterations(log):
         elif tag == "loop_start":
             if cur is not None:
                 its.append(cur)
-            cur = dict(ids=[], completed=[], failed=[], decisions=[], body=[], cb=[], ended=False)
+            cur = dict(ids=[], completed=[], failed=[], decisions=[], body=[], cb=[], ended=False, hold=last_stop)
         elif cur is None:
             continue
         elif tag == "poll":
@@ -425,9 +455,9 @@ def pair_reports(it):
     return out
 
 
-def iter_term(reports, completed, sugg, spec_choice, failed=()):
-    return "{| reports := %s; completed := %s; failed := %s; sugg := %s; spec_choice := %s |}" % (
-        lst(reports), lst([zl(i) for i in completed]), lst([zl(i) for i in failed]), lst(sugg),
+def iter_term(reports, completed, sugg, spec_choice, failed=(), hold=False):
+    return "{| reports := %s; completed := %s; failed := %s; hold := %s; sugg := %s; spec_choice := %s |}" % (
+        lst(reports), lst([zl(i) for i in completed]), lst([zl(i) for i in failed]), blit(hold), lst(sugg),
         lst([zl(i) for i in spec_choice]))
 
 
@@ -449,7 +479,7 @@ def model_cases(spec, log, extra):
             elif e[0] in ("resume", "resume_rejected"):
                 sg.append("(SResume %s)" % zl(e[1]))
         is_spec = bool(spec.get("speculative"))
-        o_its.append(iter_term(reps, it["completed"], sg, it["cb"] if is_spec else [], it["failed"]))
+        o_its.append(iter_term(reps, it["completed"], sg, it["cb"] if is_spec else [], it["failed"], it["hold"]))
         rm_stream.append(lst([zl(i) for i in ([] if is_spec else it["cb"])]))
     out["oracle"] = "(%s, %s, %s, %s)" % (cf, lst(rm_stream), lst(o_its), impl)
     # ---- layer 2 -------------------------------------------------------------------
@@ -463,7 +493,7 @@ def model_cases(spec, log, extra):
                     sg.append("None")
                 elif e[0] in ("resume", "resume_rejected"):
                     sg.append("(Some %s)" % zl(e[1]))
-            p_its.append(iter_term(reps, it["completed"], sg, it["cb"], it["failed"]))
+            p_its.append(iter_term(reps, it["completed"], sg, it["cb"], it["failed"], it["hold"]))
         out["promo"] = "(%s, %s, %s)" % (cf, lst(p_its), impl)
     elif kind == "sync":
         s_its = []
@@ -474,7 +504,7 @@ def model_cases(spec, log, extra):
                 m = metric_value(spec, t, ep) if d else 0.0
                 reps.append("(%s, (%s, %s))" % (zl(t), "None" if m != m else "(Some %s)" % q(m), zl(ep)))
             n_sg = sum(1 for e in it["body"] if e[0] in ("start", "resume", "resume_rejected"))
-            s_its.append(iter_term(reps, it["completed"], ["tt"] * n_sg, [], it["failed"]))
+            s_its.append(iter_term(reps, it["completed"], ["tt"] * n_sg, [], it["failed"], it["hold"]))
         tbl = lst([lst(["(%s, %s)" % (natlit(s), zl(l)) for s, l in rungs]) for rungs in extra["tbl"]])
         out["sync"] = "(%s, %s, %s, %s, %s)" % (cf, tbl, blit(spec["mode"] == "max"), lst(s_its), impl)
     elif kind == "pbt":
@@ -500,7 +530,7 @@ def model_cases(spec, log, extra):
                 ep = d[3] if d else 0
                 m = metric_value(spec, t, ep) if d else 0.0
                 reps.append("(%s, (%s, %s, %s))" % (zl(t), q(ep), q(sign * m), zl(choice.get(id(d), 0) if d else 0)))
-            b_its.append(iter_term(reps, it["completed"], [zl(j) for j in redraw], [], it["failed"]))
+            b_its.append(iter_term(reps, it["completed"], [zl(j) for j in redraw], [], it["failed"], it["hold"]))
         prm = "{| pp_max_t := %s; pp_interval := %s; pp_qf := %s |}" % (q(spec["max_t"]), q(spec["interval"]), q(spec["qf"]))
         out["pbt"] = "(%s, %s, %s, %s, %s)" % (cf, blit(extra["pbt_fixed"]), prm, lst(b_its), impl)
     return out
@@ -598,6 +628,10 @@ def run(ctx, replay=None):
         if spec.get("nan_den"):
             ctx.h("nan_metric", "reports_with_NaN", sum(1 for e in log if e[0] == "decision" and
                                                        metric_value(spec, e[1], e[3]) != metric_value(spec, e[1], e[3])))
+        if spec.get("wait_completion"):
+            ctx.h("stop_window", "iterations_on_hold", sum(1 for it in split_iterations(log)[0] if it["hold"]))
+            ctx.h("stop_window", "resumes_after_window", sum(1 for k, e in enumerate(log) if e[0] == "resume" and
+                                                              any(x == ("stopcond", True) for x in log[:k])))
         ctx.h("failures", "jobs_failed", sum(len(e[3]) for e in log if e[0] == "poll"))
         ctx.h("failures", "failed_in_poll_with_own_report", sum(1 for e in log if e[0] == "poll" for t in e[3] if t in e[1]))
         ctx.h("polls_with_2plus_trials", sum(1 for e in log if e[0] == "poll" and len(set(e[1])) >= 2) > 0)
